@@ -273,6 +273,40 @@ def run_tasks(tasks, budget_s=None, nproc=None):
     return merged, sorted(timings)
 
 
+# -- arguments as subclass instances ---------------------------------------
+
+def with_subclass_args(col, inner_fn, inner_kwargs, inner_sub):
+    """Run one (deterministic) task again with every str / int / bytes
+    argument handed to the code under test as an instance of a behaviour-free
+    subclass (vcheck/argtypes.py).  The oracles are unchanged."""
+    from vcheck import argtypes
+    argtypes.ACTIVE[0] = True
+    scratch = Collector(deadline=col.deadline)
+    try:
+        try:
+            inner_fn(scratch, **inner_kwargs)
+        except Violation as v:
+            case = v.case
+            if isinstance(case, dict):
+                case = dict(case, arg_subclass=True)
+            raise Violation(v.sub, 'with str/int arguments passed as '
+                            'subclass instances: ' + v.msg, case)
+    finally:
+        argtypes.ACTIVE[0] = False
+    for rec in scratch.failures:
+        if isinstance(rec.get('case'), dict):
+            rec['case']['arg_subclass'] = True
+        col.failures.append(rec)
+    col.case('subclass-args', (inner_sub, json.dumps(
+        jsonable(inner_kwargs), sort_keys=True, default=repr)), True,
+        'task/' + inner_sub, {'task': inner_sub,
+                              'evaluations': scratch.evaluations})
+    col.count('subclass-args', max(0, scratch.evaluations - 1),
+              'evaluations')
+    col.distinct_extra += max(0, len(scratch.nontrivial)
+                              + scratch.distinct_extra - 1)
+
+
 # -- schedules of first use ------------------------------------------------
 
 def first_use_race(col, sub, module_names, make_jobs, trials, nthreads=8):
